@@ -7,6 +7,8 @@ import Ivg.Gen.Tie.Mids
 import Ivg.Gen.Tie.DefaultViewBox
 import Ivg.Gen.Tie.Code.DecNumbers
 import Ivg.Gen.Tie.Code.DecColors
+import Ivg.Gen.Tie.Code.Decoder8
+import Ivg.Gen.Tie.Code.Decoder9
 import Ivg.Obligations
 /-!
 # C03 — decoding implements the IconVG FFV0 byte grammar, exactly
@@ -200,4 +202,24 @@ end Ivg.Props.C03
   Ivg.Gen.Tie.decodeColor2_model_eq,
   Ivg.Gen.Tie.decodeColor3Direct_model_eq,
   Ivg.Gen.Tie.decodeColor4_model_eq,
-  Ivg.Gen.Tie.decodeColor3Indirect_model_eq]
+  Ivg.Gen.Tie.decodeColor3Indirect_model_eq,
+  -- regenerated code (translator) = model, for all inputs: the decoder from bytes to Destination calls (Tie/Code/Decoder*.lean)
+  Ivg.Gen.Tie.decodeNumber_decodeCoordinate_code_tie,
+  Ivg.Gen.Tie.decodeNumber_decodeReal_code_tie,
+  Ivg.Gen.Tie.decodeAngle_code_tie,
+  Ivg.Gen.Tie.decodeArcToFlags_code_tie,
+  Ivg.Gen.Tie.decodeCoordinates_code_tie,
+  Ivg.Gen.Tie.decodeSetNReg_code_tie,
+  Ivg.Gen.Tie.decodeSetCReg_code_tie,
+  Ivg.Gen.Tie.decodeStartPath_code_tie,
+  Ivg.Gen.Tie.decodeSetLOD_code_tie,
+  Ivg.Gen.Tie.decodeStyling_code_tie,
+  Ivg.Gen.Tie.decodeDrawing_code_tie,
+  Ivg.Gen.Tie.decodeMetadataChunk_code_tie,
+  Ivg.Gen.Tie.decode_code_tie,
+  Ivg.Gen.Tie.decode_Decode_code_tie,
+  Ivg.Gen.Tie.decodeViewBox_code_tie,
+  Ivg.Gen.Tie.decode_verdict_independent,
+  Ivg.Gen.Tie.decode_dstnil_code_tie,
+  Ivg.Gen.Tie.errText_message,
+  Ivg.Gen.Tie.decodeError_Error_code_tie]
